@@ -190,6 +190,8 @@ def main(tier: str, replay: str | None = None):
                 "canonical old x all 2290 new in TLC, all 2290^2 on the real code in thorough, a seeded slice in quick) x 32 call shapes. "
                 "Non-trivial = pair with a lost call, or with a clause-(ii) obligation, or identical pair; distinct by (alphabet, old, new) among the pairs TLC enumerated.")
     run.extra["kind_sets"] = L.kind_sets()
+    for text in L.KIND_NOTES:
+        run.note(text)
     if replay:
         with open(replay) as fh:
             rec = json.load(fh)
